@@ -122,6 +122,7 @@ def check(run, replay):
 
     # ---- streams 5-9: how suppressions are given
     parse_streams(run, model, vh, quick)
+    documented_forms(run)
 
 
 def parse_streams(run, model, vh, quick):
@@ -152,6 +153,88 @@ def parse_streams(run, model, vh, quick):
            lambda c, m, i: ("ok" if m[0] == b"1" else "err") + "%d" % ((len(m) - 1) // 2))
     ts = [[rng.choice(G.P_IDS), rng.choice(G.P_FILES), rng.choice([-1, -1, 0, 1, 7, 2147483647]), rng.choice([b"", b"foo", b"a b", b"x#y"])] for _ in range(n // 4)]
     simple("Suppression::toString", "tostr", ts, lambda c, m, i: ("file" if c[1] else "nofile") + (",line" if c[2] != -1 else "") + (",sym" if c[3] else ""))
+
+
+KEY_COLON = "parseLine:colon-without-dot"
+
+
+def documented_forms(run):
+    """the property on the binary: every documented way of giving a suppression (manual.md) is accepted and hides the finding"""
+    import shutil
+    import subprocess
+    import tempfile
+    stream = "documented forms on the binary"
+    d = tempfile.mkdtemp(prefix="vc23_")
+    try:
+        os.makedirs(os.path.join(d, "d:x"))
+        body = ["void f(void) {", "    int *p = 0;", "%s", "    *p = 1;%s", "}"]
+        open(os.path.join(d, "d:x", "hdr"), "w").write("static void hf(void) {\n    int *p = 0;\n    *p = 1;\n}\n")
+        open(os.path.join(d, "h.c"), "w").write('#include "d:x/hdr"\nint g(int x) { return x + 1; }\n')
+
+        def run_cpp(args):
+            for _ in range(60):
+                try:
+                    p = subprocess.run([vlib.CPPCHECK, "-q", "--template={file}:{line}:{id}"] + args, cwd=d, stdout=subprocess.PIPE, stderr=subprocess.PIPE, timeout=60)
+                    return p.returncode, p.stderr.decode("latin-1") + p.stdout.decode("latin-1")
+                except OSError:
+                    import time
+                    time.sleep(2)
+            raise vlib.BuildError("cannot run cppcheck")
+
+        cases = []
+        # plain text forms: [error id]:[filename]:[line] / [error id]:[filename2] / [error id]
+        for how in ("cmdline", "file"):
+            for spec in ("nullPointer", "nullPointer:d:x/hdr:3", "nullPointer:d:x/hdr", "null*:d:x/*", "nullPointer:**", "nullPointer:h.c"):
+                cases.append((how, spec, None))
+        # inline forms on f.c
+        inl = [("before", "    // cppcheck-suppress nullPointer"), ("before", "    // cppcheck-suppress [nullPointer, zerodiv]"),
+               ("before", "    // cppcheck-suppress[nullPointer,zerodiv]"), ("before", "    /* cppcheck-suppress nullPointer */"),
+               ("before", "    // cppcheck-suppress nullPointer symbolName=p"), ("before", "    // cppcheck-suppress[nullPointer symbolName=p, zerodiv]"),
+               ("before", "    // cppcheck-suppress[nullPointer] some comment"), ("before", "    // cppcheck-suppress nullPointer ; some comment"),
+               ("before", "    // cppcheck-suppress nullPointer // some comment"), ("same", "  // cppcheck-suppress nullPointer"),
+               ("same", "  // cppcheck-suppress[nullPointer,zerodiv]"), ("block", "nullPointer"), ("block", "[nullPointer, zerodiv]"),
+               ("file", "// cppcheck-suppress-file nullPointer"), ("file", "// cppcheck-suppress-file [nullPointer, zerodiv]"),
+               ("macro", "// cppcheck-suppress-macro nullPointer"), ("macro", "// cppcheck-suppress-macro [nullPointer, zerodiv]")]
+        for kind, c in inl:
+            cases.append(("inline", kind, c))
+        for how, a, b in cases:
+            if how == "inline":
+                if a == "before":
+                    txt = "\n".join(body) % (b, "")
+                elif a == "same":
+                    txt = "\n".join(body) % ("", b)
+                elif a == "block":
+                    txt = "\n".join(body[:2] + ["    // cppcheck-suppress-begin " + b, "    *p = 1;", "    // cppcheck-suppress-end " + b, "}"])
+                elif a == "file":
+                    txt = b + "\n" + "\n".join(body) % ("", "")
+                else:
+                    txt = b + "\n#define DEREF(q) (*(q) = 1)\nvoid f(void) {\n    int *p = 0;\n    DEREF(p);\n}"
+                open(os.path.join(d, "f.c"), "w").write(txt + "\n")
+                rc, out = run_cpp(["--inline-suppr", "f.c"])
+                what, target = "inline %s: %s" % (a, b), "f.c"
+            else:
+                if how == "cmdline":
+                    args = ["--suppress=" + a]
+                else:
+                    open(os.path.join(d, "s.txt"), "w").write("// comment\n\n" + a + " # note\n")
+                    args = ["--suppressions-list=s.txt"]
+                rc, out = run_cpp(args + ["h.c"])
+                what, target = "%s %s" % (how, a), "h.c"
+            hidden = "nullPointer" not in out
+            ok = rc == 0 and hidden and "error" not in out and "invalidSuppression" not in out
+            applies = not (how != "inline" and a == "nullPointer:h.c")    # the finding is in the header: h.c does not match it
+            if not applies:
+                ok = rc == 0 and not hidden
+            run.count(stream, None, nontrivial=what, bucket="holds" if ok else "deviates")
+            if not ok:
+                run.stream(stream)["disagreements"] += 1
+                caveat = how != "inline" and "invalid line number" in out and not a.rsplit(":", 1)[-1].isdigit()
+                key = KEY_COLON if caveat else "documented-form:" + what.replace(" ", "_")[:60]
+                run.violation(key, "the documented form '%s' is %s: rc %d, output %r" % (what, "rejected" if rc else "not effective", rc, out[:200]),
+                              {"form": what, "rc": rc, "output": out[:500], "files": {"h.c": '#include "d:x/hdr"', "d:x/hdr": "static void hf(void) { int *p = 0; *p = 1; }"},
+                               "how": "cppcheck %s %s" % (" ".join(args) if how != "inline" else "--inline-suppr", target)})
+    finally:
+        shutil.rmtree(d, ignore_errors=True)
 
 
 def report(run, stream, diffs, describe):
